@@ -154,7 +154,8 @@ fn rival_plan(rng: &mut SRng) -> Plan {
     let z = rng.random_range(1..=19u64);
     let c = rng.random_range(40 - z.min(39)..=40).max(2);
     let ua = 100 - z - c;
-    let u = rng.random_range(1..ua);
+    // neither X-group node may reach safe-to-skip on its own stake (40 %) before the certificate arrives
+    let u = rng.random_range(ua.saturating_sub(39).max(1)..=39.min(ua - 1));
     let a = ua - u;
     let c1 = rng.random_range(1..c);
     let c2 = c - c1;
